@@ -42,6 +42,9 @@ const KnownWhat = "process panic: send on closed channel (async publish racing U
 // StaleWhat is matched by /verif/known_findings.json (second known finding).
 const StaleWhat = "process panic: send on closed channel (publish through a WithOnly view after Unsub/UnsubAll of its channel on the parent)"
 
+// ViewUnsubWhat is matched by /verif/known_findings.json (third known finding).
+const ViewUnsubWhat = "process panic: close of closed channel (Unsub/UnsubAll through a WithOnly view after Unsub/UnsubAll of its channel on the parent)"
+
 const foreignCid = 99 // a channel no PubSub of the scenario ever listed
 
 type Op struct {
@@ -54,16 +57,17 @@ type Op struct {
 }
 
 type Scenario struct {
-	Timeout int64   `json:"timeout"` // PubTimeoutAfter in ns
-	CbSet   bool    `json:"cb"`
-	DefBuf  int     `json:"defbuf"`
-	Progs   [][]Op  `json:"progs"`
-	Phases  [][]int `json:"phases"` // threads released so far, per phase
-	Slow    uint64  `json:"slow"`   // != 0: receivers dawdle (seeded) before each receive
-	Explore bool    `json:"explore"`
-	Stale   bool    `json:"stale,omitempty"`   // stale-view family: WithOnly, then Unsub/UnsubAll on the parent, then a publish through the view
-	NoModel bool    `json:"nomodel,omitempty"` // large scenario: Go oracles only, not emitted to the Coq model
-	Desc    string  `json:"desc"`
+	Timeout   int64   `json:"timeout"` // PubTimeoutAfter in ns
+	CbSet     bool    `json:"cb"`
+	DefBuf    int     `json:"defbuf"`
+	Progs     [][]Op  `json:"progs"`
+	Phases    [][]int `json:"phases"` // threads released so far, per phase
+	Slow      uint64  `json:"slow"`   // != 0: receivers dawdle (seeded) before each receive
+	Explore   bool    `json:"explore"`
+	Stale     bool    `json:"stale,omitempty"`     // stale-view family: WithOnly, then Unsub/UnsubAll on the parent, then a publish through the view
+	NoModel   bool    `json:"nomodel,omitempty"`   // large scenario: Go oracles only, not emitted to the Coq model
+	ViewUnsub bool    `json:"viewunsub,omitempty"` // Unsub/UnsubAll THROUGH a stale view (third known finding)
+	Desc      string  `json:"desc"`
 }
 
 type Snap struct {
@@ -211,19 +215,34 @@ func (w *world) thread(t int, release <-chan struct{}) {
 	}
 }
 
+// Goroutine states (runtime.Stack) in which a goroutine stays until another goroutine of
+// the scenario or the harness acts: if all are in such a state the scenario is quiescent.
 var parked = map[string]bool{
 	"chan send": true, "chan receive": true, "semacquire": true,
 	"sync.RWMutex.Lock": true, "sync.RWMutex.RLock": true, "sync.WaitGroup.Wait": true,
 	"chan send (nil chan)": true, "chan receive (nil chan)": true,
 }
 
-// quiescent reports whether every goroutine but the caller is parked for good,
-// the number of goroutines besides the caller, and how many are parked inside
-// chans.SendTimeout.
-func quiescent(buf []byte) (quiet bool, others, blocked int) {
-	n := runtime.Stack(buf, true)
-	quiet = n < len(buf) // a truncated dump hides goroutines: not quiescent
+// States that are blocked but may end by themselves (a timer) or that a refactoring of the
+// code under test could use instead of the ones above (a sync.Mutex instead of the RWMutex,
+// an unconditional select around the send, a sync.Cond): with these the scenario counts as
+// quiescent only after the whole picture (every goroutine's id and state) has not changed for
+// stableFor, far longer than any timer the scenarios use (2 ms).
+var parkedSoft = map[string]bool{
+	"select": true, "select (no cases)": true, "sleep": true,
+	"sync.Mutex.Lock": true, "sync.Cond.Wait": true, "sync.WaitGroup.Wait": true,
+}
 
+const stableFor = 250 * time.Millisecond
+
+// quiescent looks at every goroutine but the caller: strict = all parked for good;
+// soft = all parked or in a soft state; sig = ids and states (to detect change);
+// others = their number; blocked = how many are inside chans.SendTimeout.
+func quiescent(buf []byte) (strict, soft bool, sig string, others, blocked int) {
+	n := runtime.Stack(buf, true)
+	strict = n < len(buf) // a truncated dump hides goroutines: not quiescent
+	soft = strict
+	var sb strings.Builder
 	for i, g := range bytes.Split(buf[:n], []byte("\n\n")) {
 		if i == 0 || len(g) == 0 {
 			continue // the caller
@@ -231,32 +250,45 @@ func quiescent(buf []byte) (quiet bool, others, blocked int) {
 		others++
 		lb, rb := bytes.IndexByte(g, '['), bytes.IndexByte(g, ']')
 		if lb < 0 || rb < lb {
-			quiet = false
+			strict, soft = false, false
 			continue
 		}
+		sb.Write(g[:lb])
 		state := string(g[lb+1 : rb])
 		if k := strings.IndexByte(state, ','); k >= 0 {
 			state = state[:k]
 		}
+		sb.WriteString(state)
+		sb.WriteByte(';')
 		if !parked[state] {
-			quiet = false
+			strict = false
+			if !parkedSoft[state] {
+				soft = false
+			}
 		}
 		if bytes.Contains(g, []byte("chans.SendTimeout")) {
 			blocked++
 		}
 	}
-	return
+	return strict, soft, sb.String(), others, blocked
 }
 
 func waitQuiet(buf []byte, limit time.Duration) (bool, int, int) {
 	deadline := time.Now().Add(limit)
+	lastSig, since := "", time.Now()
 	for spin := 0; ; spin++ {
 		runtime.Gosched()
-		if q, o, b := quiescent(buf); q {
+		strict, soft, sig, o, b := quiescent(buf)
+		if strict {
 			return true, o, b
 		}
-		if time.Now().After(deadline) {
-			_, o, b := quiescent(buf)
+		now := time.Now()
+		if sig != lastSig {
+			lastSig, since = sig, now
+		} else if soft && now.Sub(since) >= stableFor {
+			return true, o, b
+		}
+		if now.After(deadline) {
 			return false, o, b
 		}
 		if spin > 20 {
@@ -266,7 +298,7 @@ func waitQuiet(buf []byte, limit time.Duration) (bool, int, int) {
 }
 
 func runScenario(sc *Scenario, out *json.Encoder, flush func(), buf []byte) (clean bool) {
-	_, base, _ := quiescent(buf)
+	_, _, _, base, _ := quiescent(buf)
 	w := &world{sc: sc, foreign: make(chan int, 1), rets: make([][][]int, len(sc.Progs))}
 	root := &chans.PubSub[int]{PubTimeoutAfter: time.Duration(sc.Timeout), DefaultBuffer: sc.DefBuf}
 	if sc.CbSet {
@@ -773,8 +805,92 @@ func buildLarge(r *core.Rand, n, e, b int, w string, withView, delayed bool, pos
 	return sc
 }
 
+// buildViewUnsub: s := SubBuf(b); v := WithOnly(s); Unsub(s) on the parent; then Unsub(s) or UnsubAll()
+// THROUGH the view: close of a closed channel. threads as in buildStale, thread 3 unsubscribes through the view.
+func buildViewUnsub(b int, all, parentAll bool) Scenario {
+	sc := buildStale(b, parentAll, false, "Sync", 0)
+	sc.Stale, sc.ViewUnsub = false, true
+	if all {
+		sc.Progs[3] = []Op{{Op: "unsuball", Obj: 1}}
+	} else {
+		sc.Progs[3] = []Op{{Op: "unsub", Obj: 1, Sub: 0}}
+	}
+	sc.Desc = fmt.Sprintf("unsub through a stale view: SubBuf(%d); WithOnly; parentAll=%v on the parent; all=%v through the view", b, parentAll, all)
+	return sc
+}
+
+// buildParkedWriter: "a blocked Lock excludes new readers". A PubSync/PubSliceSync is blocked in a send
+// (late receivers) holding the read lock; Unsub(first) is parked in Lock; then a new reader or writer is
+// released while the writer is parked: a PubSync on the parent, a WithOnly(first)+PubSync through the view,
+// or a SubBuf. The real RWMutex makes it wait behind the parked Unsub, so it sees the subscriptions AFTER
+// the Unsub. Then the receivers are released and everything completes.
+// threads: 0 setup, 1 publisher, 2 Unsub(0), 3 the late comer, 4 final UnsubAll, 5.. receivers (late)
+func buildParkedWriter(n, b int, slice bool, late string) Scenario {
+	sc := Scenario{CbSet: true}
+	var setup []Op
+	for k := 0; k < n; k++ {
+		setup = append(setup, Op{Op: "subbuf", Size: b})
+	}
+	evs := []int{11}
+	pub := Op{Op: "pub1", W: "Sync", Evs: evs}
+	if slice {
+		evs = []int{11, 12, 13}
+		pub = Op{Op: "pubs", W: "Sync", Evs: evs}
+	}
+	nch := n
+	var lc []Op
+	switch late {
+	case "pub":
+		lc = []Op{{Op: "pub1", W: "Sync", Evs: []int{77}}}
+	case "view":
+		lc = []Op{{Op: "withonly", Sub: 0}, {Op: "pub1", W: "Sync", Obj: 1, Evs: []int{78}}}
+	case "sub":
+		lc = []Op{{Op: "subbuf", Size: 1}}
+		nch++
+	}
+	sc.Progs = [][]Op{setup, {pub}, {{Op: "unsub", Sub: 0}}, lc, {{Op: "unsuball"}}}
+	var rs []int
+	for k := 0; k < nch; k++ {
+		sc.Progs = append(sc.Progs, []Op{{Op: "range", Sub: k}})
+		if k < n {
+			rs = append(rs, 5+k)
+		}
+	}
+	var rel []int
+	phase := func(ts ...int) {
+		rel = append(rel, ts...)
+		sc.Phases = append(sc.Phases, append([]int{}, rel...))
+	}
+	phase(0)
+	phase(1) // blocked in a send, holding the read lock
+	phase(2) // parked in Lock
+	phase(3) // must wait behind the parked writer
+	phase(rs...)
+	if nch > n {
+		phase(5 + n)
+	}
+	phase(4)
+	sc.Desc = fmt.Sprintf("parked writer: %d subscribers (buffer %d), slice=%v PubSync blocked, Unsub(0) parked, then %s released", n, b, slice, late)
+	return sc
+}
+
 func run(c *core.Ctx) {
 	var scs []Scenario
+	// the trusted RWMutex feature "a blocked Lock excludes new readers" (every run)
+	for n := 1; n <= 3; n++ {
+		for _, slice := range []bool{false, true} {
+			for _, late := range []string{"pub", "view", "sub"} {
+				scs = append(scs, buildParkedWriter(n, 0, slice, late))
+			}
+		}
+	}
+	scs = append(scs, buildParkedWriter(2, 1, true, "pub"), buildParkedWriter(2, 1, true, "view"))
+	// third known finding: Unsub/UnsubAll through a stale view (every run)
+	for b := 0; b <= 1; b++ {
+		for _, pa := range []bool{false, true} {
+			scs = append(scs, buildViewUnsub(b, false, pa), buildViewUnsub(b, true, pa))
+		}
+	}
 	// large scenarios (every run): mostly checked by the Go oracles only, the small ones also by the model
 	{
 		r := core.NewRand(c.Seed*7919 + 13)
@@ -992,6 +1108,9 @@ type reference struct {
 	published map[int][]int // channel -> events published to it, in publication order
 	allSync   map[int]bool  // channel -> every publish to it was a Sync variant
 	nch       int
+	// (thread, call, channel) of every Unsub/UnsubAll made through a view (object != 0) that closes a
+	// channel an earlier Unsub/UnsubAll on another PubSub has already closed
+	staleUnsubs [][3]int
 }
 
 func refOf(sc Scenario) *reference {
@@ -1072,7 +1191,11 @@ func refOf(sc Scenario) *reference {
 					case idx < 0:
 						rf.rets[t] = append(rf.rets[t], []int{4})
 					default:
-						rf.closedBy[op.Sub] = [2]int{t, ci}
+						if _, gone := rf.closedBy[op.Sub]; gone && op.Obj != 0 {
+							rf.staleUnsubs = append(rf.staleUnsubs, [3]int{t, ci, op.Sub})
+						} else {
+							rf.closedBy[op.Sub] = [2]int{t, ci}
+						}
 						setSubs(op.Obj, append(append([]int{}, cur[:idx]...), cur[idx+1:]...))
 						rf.rets[t] = append(rf.rets[t], []int{3})
 					}
@@ -1080,6 +1203,8 @@ func refOf(sc Scenario) *reference {
 					for _, s := range subsOf(op.Obj) {
 						if _, gone := rf.closedBy[s]; !gone {
 							rf.closedBy[s] = [2]int{t, ci}
+						} else if op.Obj != 0 {
+							rf.staleUnsubs = append(rf.staleUnsubs, [3]int{t, ci, s})
 						}
 					}
 					setSubs(op.Obj, nil)
@@ -1178,20 +1303,32 @@ func judge(c *core.Ctx, sc Scenario, o Outcome) {
 		if len(st) > 1200 {
 			st = st[:1200] + "..."
 		}
-		if stalePanic(sc, rf, o) && strings.Contains(msg, "send on closed channel") {
+		code := 3
+		switch {
+		case strings.Contains(msg, "send on closed channel"):
+			code = 1
+		case strings.Contains(msg, "close of closed channel"):
+			code = 2
+		}
+		if code == 2 && viewUnsubPanic(sc, rf, o) {
+			// third known finding: Unsub/UnsubAll through a view whose channel the parent has already removed
+			c.Count("known_finding_view_unsub_panics")
+			c.Fail(ViewUnsubWhat, detail(msg))
+			emit(c, sc, o, code)
+		} else if stalePanic(sc, rf, o) && code == 1 {
 			c.Count("known_finding_stale_view_panics")
 			c.Fail(StaleWhat, detail(msg))
-			emit(c, sc, o, true)
-		} else if knownPanic(sc, rf, o) && strings.Contains(msg, "send on closed channel") {
+			emit(c, sc, o, code)
+		} else if knownPanic(sc, rf, o) && code == 1 {
 			c.Count("known_finding_panics")
 			c.Fail(KnownWhat, detail(msg))
-			emit(c, sc, o, true)
+			emit(c, sc, o, code)
 		} else {
 			c.Fail("process panic on a path where no asynchronous hand-off was pending at an Unsub/UnsubAll: "+msg, detail(st))
 		}
 		return
 	}
-	if sc.Stale {
+	if sc.Stale || sc.ViewUnsub {
 		// the stale-view defect did not show (repaired some day?): nothing to report, nothing to compare
 		c.Count("stale_view_no_panic")
 		return
@@ -1334,7 +1471,31 @@ func judge(c *core.Ctx, sc Scenario, o Outcome) {
 	if bad {
 		return
 	}
-	emit(c, sc, o, false)
+	emit(c, sc, o, 0)
+}
+
+// viewUnsubPanic: the process died in the phase that released an Unsub/UnsubAll made THROUGH a view
+// of a channel that an Unsub/UnsubAll on the parent had already closed (that call had returned at the
+// last quiescent point). Any other close of a closed channel is not this finding.
+func viewUnsubPanic(sc Scenario, rf *reference, o Outcome) bool {
+	if len(o.Snaps) == 0 {
+		return false
+	}
+	s := o.Snaps[len(o.Snaps)-1]
+	next := s.Phase + 1
+	if next >= len(sc.Phases) {
+		return false
+	}
+	for _, su := range rf.staleUnsubs {
+		t, ch := su[0], su[2]
+		if !releasedBy(sc, t, next) || releasedBy(sc, t, s.Phase) {
+			continue
+		}
+		if cb, gone := rf.closedBy[ch]; gone && len(s.Rets[cb[0]]) > cb[1] {
+			return true
+		}
+	}
+	return false
 }
 
 // stalePanic: the process died in the phase that released a publish made
@@ -1426,7 +1587,8 @@ func zop(op Op) string {
 	return fmt.Sprintf("ZRange %d", op.Sub)
 }
 
-func emit(c *core.Ctx, sc Scenario, o Outcome, panicked bool) {
+// emit writes the case for the model; panicCode: 0 no panic, 1 send on closed channel, 2 close of closed channel, 3 other
+func emit(c *core.Ctx, sc Scenario, o Outcome, panicCode int) {
 	if sc.NoModel {
 		c.Count("oracle_only_large")
 		return
@@ -1456,6 +1618,6 @@ func emit(c *core.Ctx, sc Scenario, o Outcome, panicked bool) {
 	}
 	c.Emit(fmt.Sprintf("Case %s %s %s %s %s %s %s %s %s %s %s",
 		core.Z64(sc.Timeout), core.Bool(sc.CbSet), core.Z(sc.DefBuf), core.List(progs), core.ZListList(sc.Phases),
-		core.ZListList(last.Recv), core.List(rets), core.ZList(cbs), core.Bool(panicked), core.List(returned),
+		core.ZListList(last.Recv), core.List(rets), core.ZList(cbs), core.Z(panicCode), core.List(returned),
 		core.Bool(sc.Explore)))
 }
